@@ -134,6 +134,15 @@ def run(prop, tier, replay=None):
                         sc = part[x["rec"] - 1]
                         path = vlib.save_replay(prop, "iter-%s-%d" % (sc["kind"], sc["seed"]), [sc])
                         violations.append((x["pred"], x["detail"], path))
+        if not replay:
+            # large tables: the parallel copy path under several GOMAXPROCS values, writers parked inside their update functions
+            import bulkcheck
+            for level in ("table", "cache"):
+                bn, bviol, bbroken = bulkcheck.run(prop, tier, work, level)
+                cov["large_table_scenarios"] = cov.get("large_table_scenarios", 0) + bn
+                cov["traces_validated_against_impl"] += bn
+                broken += bbroken
+                violations += bviol
         for fu in mc_futs:
             r = fu.result()
             cov["mc"].append({"instance": r["tag"], "distinct": r["distinct"], "generated": r["generated"], "wall_s": round(r["wall"], 1)})
